@@ -1626,7 +1626,12 @@ func (w *svWorkload) intentAt(v *svSnap, ix int) (rig.Tx, bool) {
 	case 10: // params
 		p := v.Params
 		note := ""
-		switch rng.Intn(5) {
+		switch rng.Intn(6) {
+		case 5:
+			// fees restricted to the base denomination or not: bindings priced in another denomination while it was
+			// allowed stay as they are
+			p.RestrictedServiceFeeDenom = !p.RestrictedServiceFeeDenom
+			note = fmt.Sprint("restricted-fee-denom=", p.RestrictedServiceFeeDenom)
 		case 0:
 			p.ServiceFeeTax = pick(rng, sdkmath.LegacyZeroDec(), sdkmath.LegacyNewDecWithPrec(5, 2), sdkmath.LegacyNewDecWithPrec(5, 1), sdkmath.LegacyOneDec().Sub(sdkmath.LegacySmallestDec()), sdkmath.LegacySmallestDec(), sdkmath.LegacyNewDecWithPrec(333333333333333333, 18))
 			note = "tax=" + p.ServiceFeeTax.String()
